@@ -208,6 +208,23 @@ fn gen_method(r: &mut Rng, i: usize, depth: u32) -> AbiMethod {
             },
         };
     }
+    if r.chance(1, 12) {
+        // many arguments: the by-reference mask has one bit per argument, up to 64
+        let n = 28 + r.below(37) as usize;
+        return AbiMethod {
+            name: format!("m{}", i),
+            info: AbiMethodInfo {
+                return_value: arg_schema(r, 1),
+                receiver: ReceiverType::Shared,
+                arguments: (0..n)
+                    .map(|k| AbiMethodArgument {
+                        schema: if k >= 26 && r.chance(2, 3) { Schema::Reference(Box::new(layout_struct(r))) } else if r.chance(1, 3) { Schema::Reference(Box::new(layout_struct(r))) } else { gen_schema(r, 0, true) },
+                    })
+                    .collect(),
+                async_trait_heuristic: false,
+            },
+        };
+    }
     AbiMethod {
         name: format!("m{}", i),
         info: AbiMethodInfo {
